@@ -351,11 +351,59 @@ func runCase(phase string, i int) (res worker.Result) {
 				}
 			}()
 		}
+		// readers query while the parents are being pushed: whatever instant they see, an answer
+		// holds only true predecessors, each once
+		stopQ := make(chan struct{})
+		var qwg sync.WaitGroup
+		var queries atomic.Int64
+		var badAnswer atomic.Value
+		for q, nq := 0, 1+rng.IntN(4); q < nq; q++ {
+			qwg.Add(1)
+			qseed := rng.Uint64()
+			go func() {
+				defer qwg.Done()
+				qr := rand.New(rand.NewPCG(qseed, 7))
+				for {
+					select {
+					case <-stopQ:
+						return
+					default:
+					}
+					nd := g.Nodes[nodes[qr.IntN(len(nodes))]]
+					got, err := st.Predecessors(ctx, nd.Desc)
+					queries.Add(1)
+					if err != nil {
+						badAnswer.CompareAndSwap(nil, fmt.Sprintf("Predecessors(node %d) during concurrent pushes: %v", nd.ID, err))
+						return
+					}
+					truth := map[string]bool{}
+					for _, p := range g.Preds(nd.ID) {
+						truth[gen.Key(g.Nodes[p].Desc)] = true
+					}
+					seen := map[string]bool{}
+					for _, d := range got {
+						k := gen.Key(d)
+						if !truth[k] || seen[k] {
+							badAnswer.CompareAndSwap(nil, fmt.Sprintf("Predecessors(node %d) during concurrent pushes lists %s (true predecessor: %v, listed before: %v)", nd.ID, k, truth[k], seen[k]))
+							return
+						}
+						seen[k] = true
+					}
+				}
+			}()
+		}
 		for _, id := range order {
 			ch <- id
 		}
 		close(ch)
 		wg.Wait()
+		close(stopQ)
+		qwg.Wait()
+		res.Count("predecessor_queries_during_concurrent_pushes", queries.Load())
+		if b := badAnswer.Load(); b != nil {
+			res.Violate("predecessors-mismatch:during-concurrent-push", b.(string), witness(g, kind, orderClass, history))
+			return res
+		}
 		if firstErr != nil {
 			res.Violate("push-failed", "concurrent push failed: "+firstErr.Error(), witness(g, kind, orderClass, history))
 			return res
